@@ -75,11 +75,11 @@ GInit ==
      ELSE keys = <<>>
 
 \* sample mode: the key set, then the operations one at a time
-\* (one case in eight is spoiled: two neighbours swapped or a key repeated - building must refuse.
-\*  Repeating the *empty* key is the recorded finding C15-a and is left to its dedicated run.)
+\* (one case in eight is spoiled: two neighbours swapped or a key repeated, the empty key included
+\*  (repaired finding C15-a) - building must refuse.)
 Spoil(ks, i, dup) ==
   IF dup \/ i = Len(ks)
-  THEN (IF ks[i] = <<>> THEN ks ELSE SubSeq(ks, 1, i) \o <<ks[i]>> \o SubSeq(ks, i + 1, Len(ks)))
+  THEN SubSeq(ks, 1, i) \o <<ks[i]>> \o SubSeq(ks, i + 1, Len(ks))
   ELSE [ks EXCEPT ![i] = ks[i + 1], ![i + 1] = ks[i]]
 ChooseKeys ==
   /\ ~Exhaustive /\ phase = "keys"
